@@ -297,6 +297,23 @@ def run_case(case, seed):
                 return fail("projection-non-finite", "projected %s not finite" % nm)
             if np.abs(pr.sum(axis=1) - tot).max() > 1e-8 * max(np.abs(tot).max(), 1e-12):
                 return fail("projection-sum/" + nm, "sum of projected %s differs from the total by %.3g" % (nm, np.abs(pr.sum(axis=1) - tot).max()))
+    # history and order: the same object run again with the caller's temperatures in another order (0 K in the middle of the
+    # list), then once more in the first order: every row depends on its own temperature only
+    if not case.get("tlayout"):
+        perm = np.roll(np.arange(len(temps)), 5)
+        for what, order in (("temperatures-permuted", perm), ("run-again", np.arange(len(temps)))):
+            try:
+                tp.temperatures = temps[order].copy()
+                tp.run(lang=case["lang"])
+                T2, F2, S2, C2 = [np.array(a) for a in tp.thermal_properties]
+            except Exception as e:
+                return fail("rerun-raised/" + what, "%s: %s" % (type(e).__name__, str(e)[:120]))
+            if case["proj"] and F2.ndim == 2:
+                F2, S2, C2 = F2.sum(axis=1), S2.sum(axis=1), C2.sum(axis=1)
+            for nm, a, b in (("T", T[order], T2), ("F", F[order], F2), ("S", S[order], S2), ("C", C[order], C2)):
+                if a.shape != b.shape or not np.allclose(a, b, rtol=1e-12, atol=1e-300, equal_nan=False):
+                    k = int(np.argmax(~np.isclose(a, b, rtol=1e-12, atol=1e-300))) if a.shape == b.shape else 0
+                    return fail("rerun/%s/%s" % (what, nm), "second run() on the same object (%s): %s at T=%g K is %r, first run gave %r" % (what, nm, T2[k] if len(T2) > k else -1, b[k] if len(b) > k else None, a[k] if len(a) > k else None))
     # thermodynamic identities on phonopy's own output (refined grid, quantum + classical)
     if case["fset"] in ("typical", "typical-imag", "typical-b", "typical-c") and cut != "above-all" and nmodes:
         for T0 in (30.0, 300.0, 3000.0):
@@ -366,7 +383,7 @@ def run_end2end(case, seed):
             raise RuntimeError("unstable model lost its purpose")
         nb = fr.shape[1]
         axes = {"pretend_real": (False, True), "cutoff_frequency": (0.05, 0.6 * fr.max()), "classical": (False, True), "band_indices": (None, [0, nb - 1, 2][:nb]),
-                "temperatures": (None, [10.0, 300.0, 77.0]), "is_projection": (False, True) if not sym else (False,)}
+                "temperatures": (None, [10.0, 300.0, 0.0, 77.0]), "is_projection": (False, True) if not sym else (False,)}
         keys = list(axes)
         for combo in itertools.product(*(range(len(axes[k])) for k in keys)):
             if sum(1 for c_ in combo if c_) > 2:
